@@ -268,6 +268,13 @@ def rule_stop(chk, qa, tattr):
     for r in rets:
         v = r.ast.value
         okj = isinstance(v, ast.Call) and "deferToThread" in unparse(v.func) and any(tattr and unparse(a) == "self.%s.join" % tattr for a in v.args)
+        if okj:
+            # nothing may follow the callable: join() must wait without a timeout
+            idx = [i for i, a in enumerate(v.args) if unparse(a) == "self.%s.join" % tattr][0]
+            if v.args[idx + 1:] or v.keywords:
+                problems.append("the reader thread is joined with extra arguments %s (a timeout): stopService can complete while queued messages are still unwritten"
+                                % ([unparse(a) for a in v.args[idx + 1:]] + [k.arg for k in v.keywords]))
+                continue
         if not okj:
             problems.append("stopService returns %s, not the deferred of joining the reader thread" % (v is not None and unparse(v)[:60]))
         elif not cfg.precedes(pn, [r])[0]:
